@@ -182,6 +182,36 @@ def pos_nt(case):
     return on > 0 and off > 0
 
 
+# ---- SE_2(3) outer loop: same bounds ------------------------------------------------------
+@st.composite
+def se23pos_seq(draw):
+    n = draw(st.integers(1, 20))
+    steps = [{"zeta": draw(v3(-3.0, 3.0)) + draw(v3(-3.0, 3.0)) + [x * draw(st.sampled_from([0.0, 0.3, 1.5])) for x in draw(v3(-1.0, 1.0))],
+              "at": [x * draw(st.sampled_from([0.0, 2.0])) for x in draw(v3(-1.0, 1.0))], "yaw": draw(gens.fl(-PI, PI)),
+              "dt": 10.0 ** draw(gens.fl(-3.0, -1.0))} for _ in range(n)]
+    return {"trim": draw(st.sampled_from([0.0, 21.952, 30.0])), "kp": draw(v3(0.5, 5.0)), "z_i": draw(gens.fl(-10.0, 10.0)), "steps": steps}
+
+
+def se23pos_run(case):
+    ml = mod("ll")
+    lim = 0.3 * ml.m * ml.g
+    z_i = case["z_i"]
+    for k, s_ in enumerate(case["steps"]):
+        qc = ref.quat_from_axis_angle([0, 0, 1.0], s_["yaw"], 1.0)
+        nT, qr, z2 = call("se23pos", case["trim"], case["kp"], s_["zeta"], s_["at"], qc, z_i, s_["dt"])
+        nT, z2 = float(nT[0]), float(z2[0])
+        if not (math.isfinite(nT) and np.all(np.isfinite(qr)) and math.isfinite(z2)):
+            raise Violation("se23_position_control step %d: non-finite output" % k, **case)
+        if abs(z2) > ml.z_integral_max + 1e-15:
+            raise Violation("se23_position_control step %d: height integrator %g leaves its limit %g" % (k, z2, ml.z_integral_max), **case)
+        if ref.is_rotation(ref.quat_to_R(qr), 1e-6):
+            R = ref.quat_to_R(qr / np.linalg.norm(qr))
+            fb = nT * R[:, 2] - (case["trim"] + ml.ki_z * z_i) * np.array([0, 0, 1.0])
+            if float(np.linalg.norm(fb)) > lim * (1 + 1e-9) + 1e-9:
+                raise Violation("se23_position_control step %d: feedback term %.6f N exceeds 30%% of weight (%.6f N)" % (k, np.linalg.norm(fb), lim), **case)
+        z_i = z2
+
+
 # ---- velocity-mode input history ------------------------------------------------------
 @st.composite
 def vel_seq(draw):
@@ -404,6 +434,8 @@ def build(tier):
         Cell("rate_pid/history", rate_seq(), lambda c: rate_run(c), rate_nt,
              lambda c: ["len>=10" if len(c["steps"]) >= 10 else "len<10"], quick=300, thorough=6000, build=lambda: fn("rate")),
         Cell("position_loop/history", pos_seq(), lambda c: pos_run(c), pos_nt, None, quick=300, thorough=6000, build=lambda: fn("pos")),
+        Cell("se23_position_loop/history", se23pos_seq(), lambda c: se23pos_run(c), lambda c: len(c["steps"]) >= 2, None, quick=200, thorough=4000,
+             build=lambda: fn("se23pos")),
         Cell("input_velocity/history", vel_seq(), lambda c: vel_run(c), vel_nt, vel_classify, quick=300, thorough=6000, build=lambda: fn("vel")),
         Cell("sticks", stick_case(), check_sticks, lambda c: any(abs(x) > 0 for x in c["a"]), None, quick=500, thorough=10000,
              build=lambda: (fn("acro"), fn("level"))),
